@@ -276,24 +276,26 @@ example : docCodec.Laws (fun _ => True) :=
       · simp [h]; omega
       · simp [h]; omega }
 
+/-- fixed parameters for the examples (they illustrate the model; they must not depend on what is regenerated) -/
+private def Pex : Params := ⟨100, true, some 100⟩
 private def q (c : UInt8) : Bytes := [c]
 private def demoOps : List (Op JVal) :=
   [.add (q 97) 1 [] 0 1, .add (q 98) 2 [103, 111] 5 1, .add (q 98) 3 [] 0 0, .save, .add (q 99) 4 [] 0 2, .add (q 97) 5 [] 0 1,
    .load, .add (q 100) 6 [] 0 1]
 
 -- limit 2: b was added twice in a row (collapsed), c and a were added after the save and are gone after the load
-example : (match run docCodec P (init P 2 1000) demoOps with
+example : (match run docCodec Pex (init Pex 2 1000) demoOps with
     | .ok y => y.h.entries.map (fun e => (e.query, e.results, e.context))
     | .error _ => []) = [(q 98, 3, []), (q 100, 6, [])] := by decide
 example : (specRun (F := JVal) ⟨[], none, 1000⟩ demoOps).log.map (·.1) = [q 97, q 98, q 100] := by decide
 example : ∀ op ∈ demoOps, op.isTool = true := by decide
 -- hostile file: max_size -3 is not taken over, the entries are; then a search is recorded
-example : (match run docCodec P (init P 3 0)
+example : (match run docCodec Pex (init Pex 3 0)
       [.setFile (some (.obj [(kMaxSize, .int (-3)), (kEntries, .arr [.obj [(kQuery, .str (q 120))]])])), .load, .add (q 121) 1 [] 0 1] with
     | .ok y => (y.h.maxSize, y.h.entries.map (·.query))
     | .error _ => (0, [])) = (3, [q 120, q 121]) := by decide
 -- a type error anywhere in the document leaves the receiver untouched
-example : (load docCodec P (new P 3) (some (.obj [(kEntries, .arr [.obj [(kQuery, .int 5)]]), (kMaxSize, .int 7)]))) = (new P 3, some .parse) := by decide
+example : (load docCodec Pex (new Pex 3) (some (.obj [(kEntries, .arr [.obj [(kQuery, .int 5)]]), (kMaxSize, .int 7)]))) = (new Pex 3, some .parse) := by decide
 -- views
 private def demoState : State :=
   { entries := [⟨q 97, 1, 1, [], 0⟩, ⟨q 98, 2, 1, [], 0⟩, ⟨q 97, 3, 1, [], 0⟩, ⟨q 99, 4, 1, [], 0⟩, ⟨q 97, 5, 1, [], 0⟩], maxSize := 5 }
